@@ -237,6 +237,31 @@ def aq_header(spec, c):
     return rec(r1) + rec(r2) + rec(r3) + rec(r4)
 
 
+def swap_words(b):
+    return np.frombuffer(b, '>u4').astype('<u4').tobytes()
+
+
+def to_little_endian_uamiv(img):
+    """the same gridded (uamiv) file as written on a little-endian machine:
+    every 4-byte integer/real is byte-swapped, character data (one character
+    per 4-byte word, left-justified) keep their byte order"""
+    out = []
+    for i, p in enumerate(walk(img)):
+        if i == 0:
+            q = p[:280] + swap_words(p[280:])          # name, note | numbers
+        elif i in (1, 2):
+            q = swap_words(p)
+        elif i == 3:
+            q = p                                      # species names
+        elif len(p) == 16:
+            q = swap_words(p)                          # time header
+        else:
+            q = swap_words(p[:4]) + p[4:44] + swap_words(p[44:])
+        n = struct.pack('<i', len(q))
+        out.append(n + q + n)
+    return b''.join(out)
+
+
 def encode(spec):
     fmt = spec['fmt']
     c = content(spec)
